@@ -21,10 +21,15 @@ try:
         meta = json.load(open(os.path.join(ROOT, 'seeded', sid, 'meta.json')))
         prop = meta['breaks_property']
         patch = os.path.join(ROOT, 'seeded', sid, 'patch.diff')
-        subprocess.run(['git', '-C', SCR, 'checkout', '--', '.'], check=True)
-        r = subprocess.run(['git', '-C', SCR, 'apply', '--3way', patch], capture_output=True, text=True)
+        # back to the pristine HEAD (index included: a --3way apply stages its result, which `checkout -- .` would not undo)
+        subprocess.run(['git', '-C', SCR, 'reset', '--hard', '-q', 'HEAD'], check=True)
+        assert subprocess.run(['git', '-C', SCR, 'status', '--porcelain', '--untracked-files=no'], capture_output=True, text=True).stdout.strip() == ''
+        r = subprocess.run(['git', '-C', SCR, 'apply', patch], capture_output=True, text=True)
         if r.returncode != 0:
             r = subprocess.run(['git', '-C', SCR, 'apply', '--recount', '-C1', patch], capture_output=True, text=True)
+        if r.returncode != 0:
+            subprocess.run(['git', '-C', SCR, 'reset', '--hard', '-q', 'HEAD'], check=True)
+            r = subprocess.run(['git', '-C', SCR, 'apply', '--3way', patch], capture_output=True, text=True)
         if r.returncode != 0:
             rows.append((sid, prop, {'(patch no longer applies to HEAD)': r.stderr.strip()[:120]}))
             continue
@@ -36,6 +41,8 @@ try:
             m = re.findall(r'violations=(\d+)', p.stdout)
             res[c] = 'VIOLATION x%s (exit %d, %.0fs)' % (m[-1] if m else '?', p.returncode, time.time() - t0) if p.returncode != 0 else 'silent (exit 0, %.0fs)' % (time.time() - t0)
             print(sid, c, res[c], flush=True)
+        if meta.get('obsolete_at_head'):
+            res = {k: v + ' — expected: ' + meta['obsolete_at_head'] for k, v in res.items()}
         rows.append((sid, prop, res))
 finally:
     subprocess.run(['git', '-C', '/repo', 'worktree', 'remove', '--force', SCR], capture_output=True)
